@@ -33,6 +33,19 @@ def tcp_pattern(topo, proto, up, origin, pattern, idle, tag):
             if c.recv_some(timeout=0.01, want=1) == 0 and (c.eof or c.err):
                 break
         res["open_during_trickle"] = not (c.eof or c.err is not None)
+    elif pattern == "trickle_s2c":
+        # a download: only the origin sends, the client stays silent; the tunnel is not idle
+        per = max(idle, 1) * 0.55
+        for k in range(5):
+            o.send(so[sent["s2c"]:sent["s2c"] + 1])
+            sent["s2c"] += 1
+            c.recv_some(timeout=1.0, want=1)
+            if c.eof or c.err is not None:
+                break
+            time.sleep(per)
+            if o.recv_some(timeout=0.01, want=1) == 0 and (o.eof or o.err):
+                break
+        res["open_during_trickle"] = not (c.eof or c.err is not None or o.eof or o.err is not None)
     elif pattern == "burst":
         c.send(sc[:10]); sent["c2s"] = 10
         o.recv_some(timeout=1.0, want=10)
@@ -128,7 +141,7 @@ def run(tier, t0):
         ths = []
         k = 0
         for proto, up in listeners:
-            pats = ["silent", "burst", "trickle"] if (proto, up) in (("http", "direct"), ("socks5", "direct")) or thorough else ["silent"]
+            pats = ["silent", "burst", "trickle", "trickle_s2c"] if (proto, up) in (("http", "direct"), ("socks5", "direct")) or thorough else ["silent"]
             if proto == "reverse":
                 pats = ["silent"]      # one origin connection at a time on the reverse listener
             for pattern in pats:
